@@ -359,9 +359,9 @@ def run(ctx):
                     ctx.notes.append("%s: `%s` %s `%s`" % (o.get("why", "behaviour"), o["src"],
                                      "compiles like" if g[0].split("\t")[0] == g[1].split("\t")[0] else "does NOT compile like", o["plays_like"]))
     compare(ctx, cases, "corpus")
-    compare(ctx, gen_macro_cases(rng, 700 if quick else 30000), "generated")
-    compare(ctx, gen_rhythm_cases(rng, 250 if quick else 8000, table), "generated")
-    compare(ctx, gen_builtin_cases(rng, 100 if quick else 2000, macros), "generated")
+    compare(ctx, gen_macro_cases(rng, 1400 if quick else 30000), "generated")
+    compare(ctx, gen_rhythm_cases(rng, 500 if quick else 8000, table), "generated")
+    compare(ctx, gen_builtin_cases(rng, 200 if quick else 2000, macros), "generated")
 
 
 def replay(ctx, obj):
